@@ -13,6 +13,7 @@ not be an abort, and pc must advance by the instruction length.
 """
 import os
 import vlib
+from props import isa_common
 
 FINISH = dict(rule='every first word 0..65535 x k random machine states (k=2 quick, 8 thorough), second word '
                    'boundary-clustered; one record = one real Run(1) compared in full with the TLA+ CoreCycle')
